@@ -125,6 +125,36 @@ def compare_obs(kv, h, violations, check_views=True):
                 bad('iter-item', 'item %d = ((%r, %r), %s) but bin %d is ((%r, %r), %d)' % (
                     i, h2f(lo), h2f(hi), c[1:], i, h.edges[i], h.edges[i + 1], h.bins[i]))
                 break
+    # the same iterator driven through nth / skip / step_by instead of plain next(): item i must still be bin i
+    t = kv.get('items_jump')
+    if t is not None:
+        if t == '!':
+            bad('items_jump:panic', 'iteration through nth / skip / step_by panicked')
+        else:
+            toks = [] if t == '-' else t.split(',')
+            walks, cur = [], []
+            for it in toks:
+                lo, hi, c = it.split(':')
+                if c == 'u18446744073709551615' and h2f(lo) != h2f(lo):
+                    walks.append(cur)
+                    cur = []
+                else:
+                    cur.append((lo, hi, int(c[1:])))
+            walks.append(cur)
+            want_idx = [list(range(1, L)), list(range(2, L)), list(range(0, L, 2))]
+            names = ['iter().nth(1) then next()...', 'iter().skip(2)', 'into_iter().step_by(2)']
+            if len(walks) != 3:
+                bad('iter-jump', 'malformed jump-iteration record (%d walks)' % len(walks))
+            else:
+                for w, idx, nm in zip(walks, want_idx, names):
+                    got = [(h2f(lo), h2f(hi), c) for lo, hi, c in w]
+                    okw = len(w) == len(idx) and all(
+                        same_bits(lo, f2h(h.edges[i])) and same_bits(hi, f2h(h.edges[i + 1])) and c == h.bins[i]
+                        for (lo, hi, c), i in zip(w, idx))
+                    if not okw:
+                        bad('iter-jump', '%s yields %r but the bins %r are %r' % (
+                            nm, got, idx, [(h.edges[i], h.edges[i + 1], h.bins[i]) for i in idx]))
+                        break
     N = sum(h.bins)
 
     def view(name, fn, sig):
